@@ -1132,7 +1132,7 @@ class MainTransformer(object):
 
             # Handle virtual invokers
             parent = chain[-1] if chain else None
-            if (block and parent):
+            if (block and parent and hasattr(parent, 'virtual_methods')):
                 virtual_annotation = block.annotations.get(ANN_VFUNC)
                 if virtual_annotation:
                     invoker_name = virtual_annotation[0]
